@@ -142,7 +142,8 @@ fn ns_plain_one_line(s: &[u8]) -> bool {
         }
         prev = c;
     }
-    true
+    // white space is only allowed in front of a ns-plain-char
+    !s_white(prev)
 }
 
 fn must_quote(s: &[u8]) -> bool {
